@@ -621,16 +621,40 @@ def run_ops(world, ops, rundir):
     return sim, None, None
 
 
+def _run_ops_child(world, ops, rundir):
+    sim, v, i = run_ops(world, ops, rundir)
+    return (None if v is None else (v.clause, v.detail)), i
+
+
+def run_ops_isolated(world, ops, rundir):
+    """run_ops in a forked child of this pristine post-import process: (violation tuple or None, index)."""
+    seams.install()
+    return K.forked_call(_run_ops_child, world, ops, rundir)
+
+
+def _gen_child(seed, index, tier, rundir):
+    from . import c14_extend
+
+    if index % 5 == 4:
+        res = c14_extend.gen_and_run(seed, index, tier, rundir)
+        return {"kind": "extend", "res": res}
+    world, ops, sim, v = gen_and_run(seed, index, tier, rundir)
+    kinds = [e[1] for e in sim.log.events]
+    return {"kind": "edit", "world": world, "ops": ops, "violation": None if v is None else (v.clause, v.detail),
+            "events": len(sim.log), "kinds": kinds, "outcomes": [e[3].split(":")[0] for e in sim.log.events],
+            "op_stats": sim.stats["ops"], "fault_stats": sim.stats["faults"], "digest": sim.log.digest(),
+            "states": [K.hash64(world["nets"][n]["cfg"], m.state_key()) for n, m in sim.models.items()]}
+
+
 # --------------------------------------------------------------------------
 # minimisation / replay
 # --------------------------------------------------------------------------
 def minimise(world, ops, clause, rundir):
     def still(cand):
-        _, v, _ = run_ops(world, cand, rundir)
-        return v is not None and v.clause == clause
+        return still_world(world, cand, clause, rundir)
 
-    sim, v, i = run_ops(world, ops, rundir)
-    if v is None or v.clause != clause:
+    v, i = run_ops_isolated(world, ops, rundir)
+    if v is None or v[0] != clause:
         return None
     ops = ops[: i + 1]
     ops = K.ddmin(ops, still, budget=300)
@@ -645,12 +669,10 @@ def minimise(world, ops, clause, rundir):
     # shrink pools to what is referenced
     ref = set()
     for o in ops:
-        for k in ("uid",):
-            if k in o:
-                ref.add(o[k])
-        for k in ("uids",):
-            if k in o:
-                ref.update(o[k])
+        if "uid" in o:
+            ref.add(o["uid"])
+        if "uids" in o:
+            ref.update(o["uids"])
     w2 = dict(world, nets=[dict(nn, pool=[ar for ar in nn["pool"] if ar["uid"] in ref]) for nn in world["nets"]])
     if still_world(w2, ops, clause, rundir):
         world = w2
@@ -666,23 +688,39 @@ def minimise(world, ops, clause, rundir):
 
 def still_world(world, ops, clause, rundir):
     try:
-        _, v, _ = run_ops(world, ops, rundir)
+        v, _ = run_ops_isolated(world, ops, rundir)
     except K.HarnessError:
         return False
-    return v is not None and v.clause == clause
+    return v is not None and v[0] == clause
+
+
+def _replay_task(task):
+    world, ops, rundir = task
+    return run_ops_isolated(world, ops, rundir)
+
+
+def _replay_extend_task(task):
+    from . import c14_extend
+
+    seams.install()
+    return K.forked_call(c14_extend.run_case, task[0], task[1])
 
 
 def replay(path):
     doc = json.load(open(path))
-    if doc.get("kind") == "extend":
-        from . import c14_extend
-        return c14_extend.replay(doc, path)
     rundir = os.path.join(K.scratch_root(), "replay")
-    sim, v, i = run_ops(doc["world"], doc["ops"], rundir)
-    print(f"replay {path}: {len(doc['ops'])} ops, expected clause {doc['clause']}")
-    if v is not None:
-        print(f"  op #{i} {doc['ops'][i]} -> {v.clause}: {v.detail}")
-    if v is not None and v.clause == doc["clause"]:
+    if doc.get("kind") == "extend":
+        v = K.pool_map(_replay_extend_task, [(doc["case"], rundir)], nworkers=1, force_pool=True)[0]
+        print(f"replay {path}: extend case with {len(doc['case']['pool'])} input reactions, options {doc['case']['options']}")
+        if v is not None:
+            print(f"  -> {v[0]}: {v[1]}")
+        i = None
+    else:
+        v, i = K.pool_map(_replay_task, [(doc["world"], doc["ops"], rundir)], nworkers=1, force_pool=True)[0]
+        print(f"replay {path}: {len(doc['ops'])} ops, expected clause {doc['clause']}")
+        if v is not None:
+            print(f"  op #{i} {doc['ops'][i]} -> {v[0]}: {v[1]}")
+    if v is not None and v[0] == doc["clause"]:
         print(f"VIOLATION property={PROP} replay={path}")
         return K.EXIT_VIOLATION
     print("replay did not reproduce the violation on this tree")
@@ -698,20 +736,21 @@ _G = {}
 def _worker(task):
     lo, hi = task
     seed, tier = _G["seed"], _G["tier"]
+    seams.install()  # this worker stays pristine: every run executes in a forked child
     base = os.path.join(_G["scratch"], f"c14-w{os.getpid()}")
     stats = {"runs": 0, "events": 0, "ops": {}, "faults": {}, "multi_net": 0, "foreign": 0, "lengths": [],
              "ngrams": set(), "states": set(), "outcomes": {}, "cfgs": {}, "extend_runs": 0, "extend": {}}
     viols = []
     digests = []
     samples = []
-    from . import c14_extend
     for index in range(lo, hi):
         rundir = os.path.join(base, "r")
         shutil.rmtree(rundir, ignore_errors=True)
-        if index % 5 == 4:
-            res = c14_extend.gen_and_run(seed, index, tier, rundir)
+        r = K.forked_call(_gen_child, seed, index, tier, rundir)
+        stats["runs"] += 1
+        if r["kind"] == "extend":
+            res = r["res"]
             stats["extend_runs"] += 1
-            stats["runs"] += 1
             for k, v in res["stats"].items():
                 stats["extend"][k] = stats["extend"].get(k, 0) + v
             digests.append(res["digest"])
@@ -722,28 +761,27 @@ def _worker(task):
             if not samples and index % 50 == 4:
                 samples.append({"extend_case": res["case"]})
             continue
-        world, ops, sim, v = gen_and_run(seed, index, tier, rundir)
-        stats["runs"] += 1
-        stats["events"] += len(sim.log)
+        world, ops = r["world"], r["ops"]
+        stats["events"] += r["events"]
         stats["lengths"].append(len(ops))
         stats["multi_net"] += 1 if len(world["nets"]) > 1 else 0
         stats["foreign"] += 1 if world["foreign"] else 0
         for nn in world["nets"]:
             stats["cfgs"][nn["cfg"]] = stats["cfgs"].get(nn["cfg"], 0) + 1
-        for k, c in sim.stats["ops"].items():
+        for k, c in r["op_stats"].items():
             stats["ops"][k] = stats["ops"].get(k, 0) + c
-        for k, c in sim.stats["faults"].items():
+        for k, c in r["fault_stats"].items():
             stats["faults"][k] = stats["faults"].get(k, 0) + c
-        kinds = [e[1] for e in sim.log.events]
+        kinds = r["kinds"]
         for a in range(len(kinds) - 2):
             stats["ngrams"].add(K.hash64(kinds[a], kinds[a + 1], kinds[a + 2]))
-        for e in sim.log.events:
-            stats["outcomes"][e[3].split(":")[0]] = stats["outcomes"].get(e[3].split(":")[0], 0) + 1
-        for n, m in sim.models.items():
-            stats["states"].add(K.hash64(world["nets"][n]["cfg"], m.state_key()))
-        digests.append(sim.log.digest())
-        if v is not None:
-            viols.append({"index": index, "kind": "edit", "clause": v.clause, "detail": v.detail, "world": world, "ops": ops})
+        for o in r["outcomes"]:
+            stats["outcomes"][o] = stats["outcomes"].get(o, 0) + 1
+        stats["states"].update(r["states"])
+        digests.append(r["digest"])
+        if r["violation"] is not None:
+            viols.append({"index": index, "kind": "edit", "clause": r["violation"][0], "detail": r["violation"][1],
+                          "world": world, "ops": ops})
         if len(samples) < 2 and index % 50 == 0:
             samples.append({"nets": [{"cfg": nn["cfg"], "alphabet": nn["alphabet"], "allowed": nn["allowed"],
                                       "required": nn["required"], "pool_size": len(nn["pool"])} for nn in world["nets"]],
@@ -754,12 +792,17 @@ def _worker(task):
     return {"stats": stats, "viols": viols[:20], "nviol": len(viols), "digest": K.digest(digests), "samples": samples}
 
 
+def _report_task(task):
+    viols, seed, scratch = task
+    return report_violations(viols, seed, scratch)
+
+
 def main(argv):
     tier = K.tier_arg(argv)
     seed = K.base_seed()
     timer = K.Timer()
     scratch = K.scratch_root()
-    nruns = {"quick": 16_000, "thorough": 400_000}[tier]
+    nruns = {"quick": 10_000, "thorough": 400_000}[tier]
     if os.environ.get("C14_RUNS"):
         nruns = int(os.environ["C14_RUNS"])
     chunk = 100
@@ -785,8 +828,9 @@ def main(argv):
     nviol = sum(p["nviol"] for p in done)
     batch_digest = K.digest([p["digest"] for p in done])
 
-    exit_code, replays, known_lines = report_violations(viols, seed, scratch)
-    for ln in known_lines:
+    exit_code, replays, known_lines, out_lines = K.pool_map(_report_task, [(viols, seed, scratch)], nworkers=1,
+                                                             watchdog=3000, force_pool=True)[0]
+    for ln in out_lines + known_lines:
         print(ln)
 
     wall = timer.s()
@@ -840,6 +884,7 @@ def main(argv):
 def report_violations(viols, seed, scratch):
     from . import c14_extend
     known = K.load_known_findings(PROP)
+    out = []
     exit_code = K.EXIT_OK
     replays = []
     known_hit = {}
@@ -852,7 +897,7 @@ def report_violations(viols, seed, scratch):
         if v["kind"] == "extend":
             case = c14_extend.minimise(v["case"], v["clause"], rundir)
             if case is None:
-                print(f"HARNESS: extend violation {v['clause']} (run {v['index']}) did not reproduce", file=sys.stderr)
+                out.append(f"HARNESS: extend violation {v['clause']} (run {v['index']}) did not reproduce")
                 exit_code = K.EXIT_HARNESS
                 continue
             doc = {"kind": "extend", "seed": seed, "index": v["index"], "clause": v["clause"], "detail": v["detail"], "case": case}
@@ -860,12 +905,12 @@ def report_violations(viols, seed, scratch):
         else:
             m = minimise(v["world"], v["ops"], v["clause"], rundir)
             if m is None:
-                print(f"HARNESS: violation {v['clause']} (run {v['index']}) did not reproduce from its op list", file=sys.stderr)
+                out.append(f"HARNESS: violation {v['clause']} (run {v['index']}) did not reproduce from its op list")
                 exit_code = K.EXIT_HARNESS
                 continue
             world, ops = m
-            _, vv, _ = run_ops(world, ops, rundir)
-            doc = {"kind": "edit", "seed": seed, "index": v["index"], "clause": v["clause"], "detail": vv.detail,
+            vv, _ = run_ops_isolated(world, ops, rundir)
+            doc = {"kind": "edit", "seed": seed, "index": v["index"], "clause": v["clause"], "detail": vv[1],
                    "world": world, "ops": ops}
             fid = match_known(known, doc)
         seen.add(sig)
@@ -874,15 +919,15 @@ def report_violations(viols, seed, scratch):
             continue
         path = K.write_replay(PROP, seed, len(replays), doc)
         replays.append(path)
-        print(f"violated clause: {v['clause']} (run index {v['index']}): {doc['detail'][:400]}")
+        out.append(f"violated clause: {v['clause']} (run index {v['index']}): {doc['detail'][:400]}")
         if v["kind"] == "edit":
-            print(f"  minimised history ({len(doc['ops'])} ops): " + json.dumps(doc["ops"])[:800])
-        print(f"VIOLATION property={PROP} replay={path}")
+            out.append(f"  minimised history ({len(doc['ops'])} ops): " + json.dumps(doc["ops"])[:800])
+        out.append(f"VIOLATION property={PROP} replay={path}")
         if exit_code == K.EXIT_OK:
             exit_code = K.EXIT_VIOLATION
     lines = [f"KNOWN-FINDING: property={PROP} {e['what']} [{fid}; {n} minimised histories in this run]"
              for fid, (e, n) in sorted(known_hit.items())]
-    return exit_code, replays, lines
+    return exit_code, replays, lines, out
 
 
 def match_known(known, doc):
